@@ -394,7 +394,16 @@ func (s *Store) lookupSecretInternal(ctx context.Context, name string) (Secret, 
 		ch := s.single.DoChan("lookup:"+name, func() (any, error) {
 			sv, err := s.client.Get(ctx, name)
 			if err != nil {
-				return nil, fmt.Errorf("lookup %q: %w", name, err)
+				err = fmt.Errorf("lookup %q: %w", name, err)
+				if ctx.Err() != nil {
+					// The context of the caller that started this flight has
+					// ended. Mark the failure so that the other callers
+					// waiting on the flight can tell it apart from a failure
+					// of the request itself (which may also look like a
+					// timeout, e.g. an HTTP client with its own Timeout).
+					return nil, &abandonedLookupError{err}
+				}
+				return nil, err
 			}
 
 			s.active.Lock()
@@ -417,9 +426,10 @@ func (s *Store) lookupSecretInternal(ctx context.Context, name string) (Secret, 
 		case res := <-ch:
 			v, err = res.Val, res.Err
 		}
+		var abandoned *abandonedLookupError
 		if err == nil {
 			return v.(Secret), nil
-		} else if errors.Is(err, context.DeadlineExceeded) || errors.Is(err, context.Canceled) {
+		} else if errors.As(err, &abandoned) {
 			if ctx.Err() == nil {
 				// This wasn't us timing out, try again.
 				continue
@@ -430,6 +440,13 @@ func (s *Store) lookupSecretInternal(ctx context.Context, name string) (Secret, 
 		return nil, err
 	}
 }
+
+// abandonedLookupError reports that a lookup flight failed because the context
+// of the caller that started it ended, not because the request itself failed.
+type abandonedLookupError struct{ err error }
+
+func (e *abandonedLookupError) Error() string { return e.err.Error() }
+func (e *abandonedLookupError) Unwrap() error { return e.err }
 
 // A Secret is a function that fetches the current active value of a secret.
 // The caller should not cache the value returned; the function does not block
